@@ -54,12 +54,17 @@ pub const fn eb(name: &'static str, f: fn(&[u8]) -> Out) -> Entry {
   Entry { name, f: F::B(f) }
 }
 
+/// `C05_TRACE=1`: print every stage (debug aid for replays).
+static TRACE: std::sync::atomic::AtomicBool = std::sync::atomic::AtomicBool::new(false);
 thread_local! {
   static STAGE: Cell<&'static str> = const { Cell::new("") };
 }
 /// Name the accessor / follow-up call that runs next (only meaningful after the entry point accepted).
 #[inline]
 pub fn st(s: &'static str) {
+  if TRACE.load(std::sync::atomic::Ordering::Relaxed) {
+    eprintln!("  stage {s}");
+  }
   STAGE.with(|c| c.set(s));
 }
 /// Keep the optimiser from discarding an accessor result.
@@ -126,6 +131,27 @@ impl Local {
   }
 }
 
+/// `Panicked::key()` with the input-dependent parts of std's slicing/indexing messages removed, so that one
+/// defect keeps one key: everything from the first back-tick on is cut (std quotes the sliced string there)
+/// and the flavours of an out-of-range str/slice index are folded into one class.
+pub fn pkey(p: &vx::Panicked) -> String {
+  let k = p.key();
+  let (head, msg) = match k.split_once(':') {
+    Some((h, m)) => (h.to_string(), m.to_string()),
+    None => (k.clone(), String::new()),
+  };
+  let m = &p.msg;
+  let slice = m.contains("byte index") || m.contains("is out of bounds of") || m.contains("out of range for slice") || m.contains("begin <= end") || m.contains("slice index starts at") || m.contains("index out of bounds: the len is");
+  if slice {
+    return format!("{head}:slice-or-index-out-of-range");
+  }
+  let msg = match msg.split_once('`') {
+    Some((a, _)) => a.trim_end().to_string(),
+    None => msg,
+  };
+  format!("{head}:{msg}")
+}
+
 /// Run ONE input through ONE entry point and judge it. `keep_distinct`: record the case as a distinct
 /// non-trivial case when it was accepted (see the rule text in `generate`).
 pub fn run1(ctx: &Ctx, e: &Entry, input: In<'_>, local: &mut Local, keep_distinct: bool) -> Out {
@@ -145,7 +171,7 @@ pub fn run1(ctx: &Ctx, e: &Entry, input: In<'_>, local: &mut Local, keep_distinc
     Err(p) => {
       let stage = STAGE.with(|c| c.get());
       let entry = if stage.is_empty() { e.name.to_string() } else { format!("{}>{}", e.name, stage) };
-      let key = format!("{entry}|{}", p.key());
+      let key = format!("{entry}|{}", pkey(&p));
       let ilen = match &input {
         In::S(s) => s.len(),
         In::B(b) => 2 * b.len(),
@@ -273,6 +299,7 @@ fn generate(ctx: &Ctx) {
 fn main() {
   // hidden child mode of the hostile family: must be handled before vx parses the arguments
   let args: Vec<String> = std::env::args().collect();
+  TRACE.store(std::env::var_os("C05_TRACE").is_some(), std::sync::atomic::Ordering::Relaxed);
   if args.len() >= 2 && args[1] == census::CHILD_ARG {
     census::child_main(&args[2..]);
   }
